@@ -283,3 +283,52 @@ def c04_candidate(c, sc):
     if abs(float(row.confidence) - total) > 1e-6:
         return f"confidence {row.confidence} is not the configured score of what is reported ({total})"
     return None
+
+
+# ---------------------------------------------------------------- C05 (cross-file)
+def c05_run(sc, results):
+    out = []
+    for m, r in results.items():
+        if r["real"]["error"]:
+            continue
+        for fno, rows in r["rows"].items():
+            if fno == 0 or m in ("separate", "all"):
+                ids = [int(x["QryContigID"]) for x in rows]
+                if len(set(ids)) != len(ids):
+                    out.append((f"mode {m} file {fno}: more than one record for one query", None, f"{m}/{fno}"))
+                if fno == 0 and m != "joined" and ids != sorted(ids):
+                    out.append((f"mode {m} main file: records not in ascending query id order", None, f"{m}/0"))
+    peaks_count = int(sc.extra_args.get("-p", 3))
+    nlab = {mid: len(pos) for mid, _, pos in sc.queries}
+    if "separate" in results and not results["separate"]["real"]["error"]:
+        r = results["separate"]
+        first = {int(x["QryContigID"]): x for x in r["rows"].get(0, [])}
+        byq = {}
+        for c in r["cands"]:
+            if c["shift"] == 0 and c["n"] == nlab.get(c["qid"]):
+                byq.setdefault(c["qid"], {}).setdefault(c["idx"], c)   # first pass = whole query
+        for qid, cs in byq.items():
+            if len(cs) > peaks_count:
+                out.append((f"query {qid}: {len(cs)} seed peaks used, peaksCount is {peaks_count}", None, "peaksCount"))
+            best = None
+            for idx in sorted(cs):
+                c = cs[idx]
+                if best is None or c["row"].confidence > best["row"].confidence:
+                    best = c
+            has_pairs = bool(best["row"].alignedPairs)
+            rec = first.get(qid)
+            if has_pairs != (rec is not None):
+                out.append((f"query {qid}: best candidate has pairs={has_pairs} but record present={rec is not None}", None, "best"))
+            elif rec is not None:
+                ps = [(p.reference.siteId, p.query.siteId) for p in best["row"].alignedPairs]
+                if rec["_pairs"] != ps or rec["Confidence"] != "{:.2f}".format(best["row"].confidence):
+                    out.append((f"query {qid}: the first-pass record is not the highest-confidence candidate", None, "best"))
+        for qid in first:
+            if qid not in byq:
+                out.append((f"query {qid}: record without any candidate", None, "best"))
+        if "best" in results and not results["best"]["real"]["error"]:
+            ids_best = [int(x["QryContigID"]) for x in results["best"]["rows"].get(0, [])]
+            want = sorted(set(first) | {int(x["QryContigID"]) for x in r["rows"].get(1, [])})
+            if ids_best != want:
+                out.append((f"'best' mode lists queries {ids_best}, queries with an alignment are {want}", None, "best-mode"))
+    return out
